@@ -98,7 +98,7 @@ func eval(c Case, dir string) hx.Result {
 						{HostPath: "/h3/" + tag, ContainerPath: "/c/" + tag + "/unclean/"}, {HostPath: "//h4/./" + tag, ContainerPath: "//dbl/./" + tag}},
 					Hooks:          []*specs.Hook{{HookName: "prestart", Path: "/hook/" + tag, Args: []string{"a", tag}, Env: []string{"H=" + tag}, Timeout: &tm}},
 					IntelRdt:       &specs.IntelRdt{ClosID: "clos-" + tag, L3CacheSchema: "L3:" + tag, EnableCMT: tag == "spec"},
-					AdditionalGIDs: []uint32{7, uint32(len(tag))},
+					AdditionalGIDs: []uint32{0, 7, 0, uint32(len(tag)), 7}, // ignored zeros and a repeat between the values: whatever filters them must not do so in place
 				}
 			}
 			se := rich("spec")
